@@ -21,6 +21,7 @@ import (
 func c13Harness(h *gwHarness, c a.Case) explore.Harness {
 	body := bodyOf(c.Q, c.Vars)
 	return func() (func(), func(*vrt.Sched) (string, string)) {
+		h.begin()
 		var resp []byte
 		done := false
 		run := func() {
@@ -173,6 +174,7 @@ func init() {
 					Atoms: h.fed.CaseAtoms(cc.c),
 					Opt:   explore.Options{Bound: bound, MapBranch: true, Horizon: 200000, Cache: true},
 					H:     c13Harness(h, cc.c),
+					Fresh: func() explore.Harness { return c13Harness(h.freshCopy(), cc.c) },
 					Post:  c13Post,
 				})
 			}
